@@ -26,7 +26,7 @@ fn sanitize(c: &Cond) -> Cond {
 }
 
 fn strat() -> impl Strategy<Value = Case> {
-    let o = ProgOpts { max_streams: 5, ..ProgOpts::full() };
+    let o = ProgOpts { max_streams: 5, join_derived: false, ..ProgOpts::full() };
     (prog(o), events(40), proptest::collection::vec(any::<u16>(), 0..4), proptest::collection::vec(any::<bool>(), 5)).prop_map(|(mut prog, events, cuts, force)| {
         // bias towards chains/diamonds: re-source some pass-like/agg streams to an earlier pass-like stream
         for i in 1..prog.streams.len() {
